@@ -144,7 +144,9 @@ def run(prog: Program, ctx: Ctx) -> None:  # noqa: PLR0912,PLR0915
     for mname, inherited in (("members", False), ("inherited_members", True)):
         for fn in alias.methods.get(mname, []):
             wraps = [c for c in calls_in(fn.node) if dotted(c.func) == "Alias"]
-            ok = len(wraps) == 1 and unparse(kwarg(wraps[0], "parent")) == "self" and unparse(kwarg(wraps[0], "inherited")) == str(inherited) \
+            comps = [n for n in ast.walk(fn.node) if isinstance(n, ast.DictComp)]
+            unconditional = len(comps) == 1 and len(wraps) == 1 and comps[0].value is wraps[0] and not comps[0].generators[0].ifs
+            ok = unconditional and len(wraps) == 1 and unparse(kwarg(wraps[0], "parent")) == "self" and unparse(kwarg(wraps[0], "inherited")) == str(inherited) \
                 and (unparse(kwarg(wraps[0], "target")) if kwarg(wraps[0], "target") is not None else (unparse(wraps[0].args[1]) if len(wraps[0].args) > 1 else "")) == "member" \
                 and unparse(wraps[0].args[0]) == "name"
             ctx.ob("R3", f"rebased|{mname}", ok, f"Alias.{mname} wraps each target member in Alias(name, target=member, parent=self, inherited={inherited})", where(fn))
